@@ -403,6 +403,40 @@ class Shadow:
         self.compare('after-foreign-failure')
         self.compare_committed('after-foreign-failure')
 
+    def op_storage_begin_failure(self, limited):
+        """over-long transaction metadata: a storage that limits it rejects the transaction in its tpc_begin"""
+        if not (self.work or self.added or self.layers):
+            # make sure the connection takes part in the transaction: change the root
+            tgt = self.fresh()
+            self.uid += 1
+            cur = self.visible(0)
+            edges = dict(cur[1])
+            edges['e%d' % self.uid] = tgt
+            self._set(0, (cur[0], edges))
+            self.trace.append('link(0->%d)' % tgt)
+        self.tm.get().note('m' * 70000)
+        before = self.st.lastTransaction()
+        if not limited:
+            return self.op_commit()
+        try:
+            self.tm.commit()
+            raise Diverged('commit-with-over-long-metadata-accepted', {})
+        except Diverged:
+            raise
+        except Exception as e:
+            if type(e).__name__ != 'FileStorageError':
+                raise
+        self.tm.abort()
+        if self.st.lastTransaction() != before:
+            raise Diverged('failed-commit-stored-a-transaction', {'phase': 'storage-tpc_begin'})
+        if self.st.tpc_transaction() is not None:
+            raise Diverged('storage-still-in-the-failed-transaction', {'phase': 'storage-tpc_begin'})
+        self._abort_model()
+        self.trace.append('storage-begin-failure')
+        self.count('failed_commits_storage_begin')
+        self.compare('after-storage-begin-failure')
+        self.compare_committed('after-storage-begin-failure')
+
     def op_close_while_joined(self):
         if not (self.work or self.added):
             self.op_modify()
